@@ -1902,6 +1902,27 @@ class Interp:
     # -- builtins ------------------------------------------------------------------------
     def _install_builtins(self):
         E = self.ext
+        # regular-expression functions on concrete text: evaluated by the checker's own `re` (a pure function of its arguments)
+        import re as _re
+
+        def _re_fn(name):
+            def f(I, a, k, n):
+                if all(isinstance(x, (str, int)) and not isinstance(x, bool) for x in a) and all(isinstance(x, (str, int)) for x in k.values()):
+                    r = getattr(_re, name)(*a, **k)
+                    if name in ("match", "search", "fullmatch"):
+                        return None if r is None else Obj(kind="ReMatch", label="match", attrs={"m": r})
+                    return r
+                I.err(n, f"re.{name} on non-literal text")
+            return f
+        for nm in ("sub", "split", "findall", "match", "search", "fullmatch", "escape"):
+            E[f"re.{nm}"] = _re_fn(nm)
+        self.libmeth[("ReMatch", "group")] = lambda I, v, a, k, n: v.attrs["m"].group(*[int(I.to_py(x, n)) if not isinstance(x, str) else x for x in a])
+        self.libmeth[("ReMatch", "groups")] = lambda I, v, a, k, n: tuple(v.attrs["m"].groups())
+        # context managers that do not change any value: floating-point error state, warning filters
+        for nm in ("numpy.errstate", "warnings.catch_warnings", "contextlib.nullcontext"):
+            E[nm] = lambda I, a, k, n: Obj(kind="NullContext", label="context")
+        self.libmeth[("NullContext", "__enter__")] = lambda I, v, a, k, n: None
+        self.libmeth[("NullContext", "__exit__")] = lambda I, v, a, k, n: None
 
         def b_len(I, a, k, n):
             v = a[0]
@@ -1939,6 +1960,8 @@ class Interp:
                         return True
                     if isinstance(v, Obj) and v.kind == x.dotted:
                         return True
+                    if isinstance(v, Obj) and v.kind == "PyInt" and nm in ("int", "Integral", "Real", "Number", "Rational", "Complex", "integer"):
+                        return True         # token standing for a python int (checks that care about the int/float spelling)
                     if nm in ("ndarray", "Series") and isinstance(v, Arr):
                         return nm == ("Series" if v.kind == "series" else "ndarray")
                     if nm == "DataFrame" and isinstance(v, Frame):
@@ -1949,6 +1972,8 @@ class Interp:
 
         def b_float(I, a, k, n):
             v = a[0]
+            if isinstance(v, Obj) and v.kind == "PyInt":
+                return Obj(kind="PyFloat", label=f"float({v.label})", attrs={"of": v.label})
             if isinstance(v, Term):
                 return Term("float", [v])
             if isinstance(v, Num) or _is_sym(v):
@@ -2087,6 +2112,9 @@ class Interp:
         E["builtins.bool"] = lambda I, a, k, n: I.truth(a[0], n) if a else False
         E["builtins.getattr"] = b_getattr
         E["builtins.setattr"] = lambda I, a, k, n: I.setattr_(a[0], a[1], a[2], n)
+        # object.__setattr__(obj, name, value) / super().__setattr__(name, value): the plain attribute store, bypassing a class's own __setattr__
+        E["builtins.object.__setattr__"] = lambda I, a, k, n: (a[0].attrs.__setitem__(a[1], a[2]) if isinstance(a[0], Obj) and isinstance(a[1], str)
+                                                               else I.err(n, "object.__setattr__ on a non-object"))
 
         def b_iter(I, a, k, n):
             if len(a) == 1:
